@@ -384,6 +384,20 @@ def check(ctx: Ctx) -> None:
                 cond = st.cond[:e.ncond]
                 opt = [x.result for x in st.events if x.kind == "call" and x.callee == "options.get" and x.args[:1] == (const("delete"),)]
                 guarded = any((o, True) in cond for o in opt)
+                if not guarded:
+                    # the option read once into a variable of the enclosing function (`flag = bool(options.get("delete"))`)
+                    for (t, v) in cond:
+                        if v is True and t[0] == "sym" and "." not in t[1]:
+                            defs_ = [n_ for n_ in repo.own_nodes(f_srv) if isinstance(n_, ast.Assign) and len(n_.targets) == 1 and isinstance(n_.targets[0], ast.Name)
+                                     and n_.targets[0].id == t[1]]
+                            stored_in_nested = any(isinstance(x, ast.Name) and x.id == t[1] and isinstance(x.ctx, ast.Store) for x in ast.walk(f_rds.node))
+                            if len(defs_) == 1 and not stored_in_nested:
+                                val = defs_[0].value
+                                if isinstance(val, ast.Call) and isinstance(val.func, ast.Name) and val.func.id == "bool" and len(val.args) == 1:
+                                    val = val.args[0]
+                                if isinstance(val, ast.Call) and unparse(val.func) == "options.get" and val.args and repo.fold_in(val.args[0], f_srv) == "delete" \
+                                        and (len(val.args) == 1 or repo.fold_in(val.args[1], f_srv) in (None, False)):
+                                    guarded = True
                 listed_ok = False
                 for (t, v) in cond:
                     if t[0] == "cmp" and t[1] == "in" and t[2] == other and v is False:
@@ -560,12 +574,32 @@ def check(ctx: Ctx) -> None:
         evp = evaluator(repo, fpl)
         ch = ("sym", fpl.params()[1])
         each = marker = False
+        # the completion marker is whatever the receiver's link loop waits for (agreement of the two sides, literal or named)
+        f_srv_ = repo.func("rsync_remote.serve_rsync")
+        want_markers = set()
+        for w in repo.own_nodes(f_srv_):
+            if isinstance(w, ast.While) and isinstance(w.test, ast.Compare) and len(w.test.ops) == 1 and isinstance(w.test.ops[0], ast.NotEq):
+                v_ = repo.fold_in(w.test.comparators[0], f_srv_)
+                if v_ is not UNKNOWN:
+                    want_markers.add(v_)
+            if isinstance(w, ast.For) and isinstance(w.iter, ast.Call) and isinstance(w.iter.func, ast.Name) and w.iter.func.id == "iter" and len(w.iter.args) == 2:
+                v_ = repo.fold_in(w.iter.args[1], f_srv_)   # for msg in iter(channel.receive, SENTINEL)
+                if v_ is not UNKNOWN:
+                    want_markers.add(v_)
+
+        def marker_value(t):
+            if t[0] == "const":
+                return t[1]
+            if t[0] == "sym" and t[1].split(".")[-2:-1] == ["rsync_remote"]:
+                return repo.module("rsync_remote").consts.get(t[1].split(".")[-1], UNKNOWN)
+            return UNKNOWN
         for (p, st) in all_paths(evp):
             for e in st.events:
                 if e.kind == "call" and e.callee == f"{ch[1]}.send" and e.args:
                     if e.args[0][0] == "elem" and e.args[0][1] == ("sym", "self._links"):
                         each = True
-                    if e.args[0] == const(42) and p[-1][0] == evp.cfg.exit.id:
+                    mv = marker_value(e.args[0])
+                    if mv is not UNKNOWN and mv in want_markers and p[-1][0] == evp.cfg.exit.id:
                         marker = True
         if not each or not marker:
             ob.violation(fpl, fpl.node, "_process_link does not send every recorded link followed by the completion marker")
